@@ -29,8 +29,8 @@ func init() {
 			"conventions taken from the documentation: Distance -1 without a path; Eccentricity all -1, Diameter and Radius -1 when disconnected (0 for n=0); Girth -1 when acyclic; result index = length for the counters; NumberOfInducedPaths entry 0 = n; entries beyond maxLength are not judged; order of components / blocks / articulation vertices is not judged, blocks must be sorted lists, isolated vertices may or may not be singleton blocks (all or none)",
 		},
 		Run:            run,
-		MinEvaluations: map[string]int{"quick": 1500000, "thorough": 12000000},
-		MinNontrivial:  map[string]int{"quick": 20000, "thorough": 150000},
+		MinEvaluations: map[string]int{"quick": 1500000, "thorough": 20000000},
+		MinNontrivial:  map[string]int{"quick": 20000, "thorough": 200000},
 		RequiredObs: []string{
 			"rep:dense", "rep:sparse", "rep:view", "rep:compl",
 			"graphs:disconnected", "graphs:with_cut_vertex", "graphs:acyclic", "graphs:with_bridge", "graphs:blocks>=4",
